@@ -42,10 +42,41 @@ func covers(cover string, required []string) bool {
 	return true
 }
 
-// binding says what a loop variable stands for.
+// binding says what a variable stands for while the prologue is walked.
 type binding struct {
-	kind  string // "maps": one of the module maps; "module": a loaded module; "elem": an element of a slice field of a loaded module
-	cover string // which module containers are covered
+	// "root":   the Modules value itself or one of its infrastructure objects (one per Modules value)
+	// "tables": a list of module containers;  "maps": one module container
+	// "module": a loaded module;  "elems": a slice field of a loaded module;  "elem": an element of one
+	// "func":   a function value (a literal, a local closure, a function of the package)
+	// "":       nothing of the above (only via is known)
+	kind  string
+	cover string          // which module containers are covered
+	via   map[string]bool // keys (pathKey) of the expressions on the way from the root to what the variable stands for
+	fn    *funcVal
+}
+
+// funcVal is a function the walker can enter: a declaration of the package, or a literal together
+// with the environment it was written in.
+type funcVal struct {
+	decl *ast.FuncDecl
+	lit  *ast.FuncLit
+	env  map[types.Object]binding
+}
+
+// guard is a nil test that holds where a statement stands: `X != nil`.
+type guard struct{ key, text, pos string }
+
+// ctx says under what circumstances a statement is executed.
+type ctx struct {
+	cond   bool    // under a condition that is not a nil guard (or in a loop that is not a range loop)
+	guards []guard // the enclosing nil guards: each X is known not to be nil here
+	loops  int     // range loops of the current function around the statement
+	depth  int     // functions entered
+}
+
+func (c ctx) with(gs []guard) ctx {
+	c.guards = append(append([]guard{}, c.guards...), gs...)
+	return c
 }
 
 type resetFact struct {
@@ -61,7 +92,6 @@ type resetWalker struct {
 	facts   map[fieldKey]*resetFact
 	stack   map[string]bool
 	ranging map[fieldKey]bool // fields whose every key the enclosing range loop visits
-	recv    types.Object      // receiver of the function whose statements are being walked
 }
 
 // recvOf: the receiver variable of a method of the root or of another struct that is not an AST
@@ -150,7 +180,8 @@ func (w *world) isMutexCall(c *ast.CallExpr) bool {
 	return false
 }
 
-// callee returns the declaration of the package function or method a call names.
+// callee returns the declaration of the package function or method a call names (nil for a call
+// through an interface or a function value).
 func (w *world) callee(c *ast.CallExpr) *ast.FuncDecl {
 	var id *ast.Ident
 	switch f := c.Fun.(type) {
@@ -165,11 +196,17 @@ func (w *world) callee(c *ast.CallExpr) *ast.FuncDecl {
 	if !ok || fn.Pkg() != w.pkg.Types {
 		return nil
 	}
+	return w.declOf(fn)
+}
+
+func (w *world) declOf(fn *types.Func) *ast.FuncDecl {
 	name := fn.Name()
 	if sig, ok := fn.Type().(*types.Signature); ok && sig.Recv() != nil {
-		if s := w.namedStruct(sig.Recv().Type()); s != "" {
-			name = s + "." + name
+		s := w.namedStruct(sig.Recv().Type())
+		if s == "" {
+			return nil // a method of an interface or of a type that is not a struct: not entered
 		}
+		name = s + "." + name
 	}
 	return w.decls[name]
 }
@@ -222,40 +259,332 @@ func (w *world) iteratorCoverage(fd *ast.FuncDecl) (cover string, ok bool) {
 	return cover, cover != ""
 }
 
-func (rw *resetWalker) walk(stmts []ast.Stmt, env map[types.Object]binding, cond bool, depth int) {
-	for _, s := range stmts {
-		rw.stmt(s, env, cond, depth)
-		switch s.(type) {
-		case *ast.IfStmt, *ast.SwitchStmt, *ast.TypeSwitchStmt, *ast.SelectStmt:
-			if escapes(s) {
-				cond = true // what follows is not reached on every path
+// ---------------------------------------------------------------------------------------------
+// access paths and nil guards
+
+func (w *world) objOf(id *ast.Ident) types.Object {
+	if o := w.info.Uses[id]; o != nil {
+		return o
+	}
+	return w.info.Defs[id]
+}
+
+// pathKey names an access path: a variable, then field selections (and constant-looking index
+// expressions); parentheses, * and & are transparent.  Two expressions with the same key denote
+// the same object as long as nothing on the path is assigned in between.
+func (w *world) pathKey(e ast.Expr) (string, bool) {
+	switch x := e.(type) {
+	case *ast.ParenExpr:
+		return w.pathKey(x.X)
+	case *ast.StarExpr:
+		return w.pathKey(x.X)
+	case *ast.UnaryExpr:
+		if x.Op == token.AND {
+			return w.pathKey(x.X)
+		}
+	case *ast.Ident:
+		if o := w.objOf(x); o != nil {
+			if _, isVar := o.(*types.Var); isVar {
+				return fmt.Sprintf("%s@%d", x.Name, o.Pos()), true
 			}
-		case *ast.BranchStmt, *ast.ReturnStmt:
-			cond = true
+		}
+	case *ast.SelectorExpr:
+		if s := w.info.Selections[x]; s != nil && s.Kind() == types.FieldVal {
+			if k, ok := w.pathKey(x.X); ok {
+				return k + "." + x.Sel.Name, true
+			}
+		}
+	case *ast.IndexExpr:
+		if k, ok := w.pathKey(x.X); ok {
+			return k + "[" + types.ExprString(x.Index) + "]", true
+		}
+	}
+	return "", false
+}
+
+// pathIdent: the variable an access path starts at.
+func pathIdent(e ast.Expr) *ast.Ident {
+	for {
+		switch x := e.(type) {
+		case *ast.SelectorExpr:
+			e = x.X
+		case *ast.IndexExpr:
+			e = x.X
+		case *ast.SliceExpr:
+			e = x.X
+		case *ast.ParenExpr:
+			e = x.X
+		case *ast.StarExpr:
+			e = x.X
+		case *ast.UnaryExpr:
+			if x.Op != token.AND {
+				return nil
+			}
+			e = x.X
+		case *ast.Ident:
+			return x
+		default:
+			return nil
 		}
 	}
 }
 
-func (rw *resetWalker) stmt(s ast.Stmt, env map[types.Object]binding, cond bool, depth int) {
+// pureFieldPath: a variable followed by field selections only.
+func (w *world) pureFieldPath(e ast.Expr) bool {
+	for {
+		switch x := e.(type) {
+		case *ast.ParenExpr:
+			e = x.X
+		case *ast.StarExpr:
+			e = x.X
+		case *ast.SelectorExpr:
+			if s := w.info.Selections[x]; s == nil || s.Kind() != types.FieldVal {
+				return false
+			}
+			e = x.X
+		case *ast.Ident:
+			return true
+		default:
+			return false
+		}
+	}
+}
+
+// viaOf: the keys of e and of every prefix of e, and what the variable e starts at came through.
+// The result of a method call `x.f()` counts as reached through x.
+func (rw *resetWalker) viaOf(e ast.Expr, env map[types.Object]binding) map[string]bool {
+	out := map[string]bool{}
+	for x := e; x != nil; {
+		if k, ok := rw.w.pathKey(x); ok {
+			out[k] = true
+		}
+		switch y := x.(type) {
+		case *ast.SelectorExpr:
+			x = y.X
+		case *ast.IndexExpr:
+			x = y.X
+		case *ast.SliceExpr:
+			x = y.X
+		case *ast.ParenExpr:
+			x = y.X
+		case *ast.StarExpr:
+			x = y.X
+		case *ast.UnaryExpr:
+			x = y.X
+		case *ast.CallExpr:
+			x = nil
+			if sel, ok := y.Fun.(*ast.SelectorExpr); ok {
+				if s := rw.w.info.Selections[sel]; s != nil && s.Kind() == types.MethodVal {
+					x = sel.X
+				}
+			}
+		case *ast.Ident:
+			if o := rw.w.objOf(y); o != nil {
+				for k := range env[o].via {
+					out[k] = true
+				}
+			}
+			x = nil
+		default:
+			x = nil
+		}
+	}
+	return out
+}
+
+// nilTest: `X == nil` / `X != nil` (either order) where X is an access path.
+func (w *world) nilTest(e ast.Expr) (x ast.Expr, op token.Token, ok bool) {
+	b, isBin := unparen(e).(*ast.BinaryExpr)
+	if !isBin || (b.Op != token.EQL && b.Op != token.NEQ) {
+		return nil, 0, false
+	}
+	isNil := func(e ast.Expr) bool {
+		id, ok := unparen(e).(*ast.Ident)
+		if !ok {
+			return false
+		}
+		_, ok = w.info.Uses[id].(*types.Nil)
+		return ok
+	}
+	switch {
+	case isNil(b.Y):
+		x = unparen(b.X)
+	case isNil(b.X):
+		x = unparen(b.Y)
+	default:
+		return nil, 0, false
+	}
+	if _, ok := w.pathKey(x); !ok {
+		return nil, 0, false
+	}
+	return x, b.Op, true
+}
+
+func (w *world) guardOf(x ast.Expr, at ast.Node) guard {
+	k, _ := w.pathKey(x)
+	return guard{key: k, text: types.ExprString(x), pos: w.pos(at)}
+}
+
+// holdGuards: the condition is a conjunction of tests `X != nil` only: where it holds, every X is not nil.
+func (w *world) holdGuards(cond ast.Expr) ([]guard, bool) {
+	var cs []ast.Expr
+	conjuncts(cond, &cs)
+	var gs []guard
+	for _, c := range cs {
+		x, op, ok := w.nilTest(c)
+		if !ok || op != token.NEQ {
+			return nil, false
+		}
+		gs = append(gs, w.guardOf(x, c))
+	}
+	return gs, len(gs) > 0
+}
+
+// failGuards: the condition is a disjunction of tests `X == nil` only: where it fails, every X is not nil.
+func (w *world) failGuards(cond ast.Expr) ([]guard, bool) {
+	var ds []ast.Expr
+	var split func(e ast.Expr)
+	split = func(e ast.Expr) {
+		e = unparen(e)
+		if b, ok := e.(*ast.BinaryExpr); ok && b.Op == token.LOR {
+			split(b.X)
+			split(b.Y)
+			return
+		}
+		ds = append(ds, e)
+	}
+	split(cond)
+	var gs []guard
+	for _, d := range ds {
+		x, op, ok := w.nilTest(d)
+		if !ok || op != token.EQL {
+			return nil, false
+		}
+		gs = append(gs, w.guardOf(x, d))
+	}
+	return gs, len(gs) > 0
+}
+
+// skipGuards: `if X == nil [|| Y == nil] { ...; continue }` directly in a range loop of the
+// function (or `...; return` outside every loop of the function), without else and without another
+// way out of the body: the statements after it run for every element (in every call) where the
+// tested objects are not nil.  A break, a goto, a labelled continue, or a return inside a loop also
+// ends the visits of the REMAINING elements: not a guard.
+func (w *world) skipGuards(x *ast.IfStmt, c ctx) ([]guard, bool) {
+	if x.Init != nil || x.Else != nil || len(x.Body.List) == 0 {
+		return nil, false
+	}
+	gs, ok := w.failGuards(x.Cond)
+	if !ok {
+		return nil, false
+	}
+	n := len(x.Body.List)
+	for _, s := range x.Body.List[:n-1] {
+		if escapes(s) {
+			return nil, false
+		}
+	}
+	switch last := x.Body.List[n-1].(type) {
+	case *ast.BranchStmt:
+		if last.Tok == token.CONTINUE && last.Label == nil && c.loops > 0 {
+			return gs, true
+		}
+	case *ast.ReturnStmt:
+		if c.loops == 0 {
+			return gs, true
+		}
+	}
+	return nil, false
+}
+
+// conditional: is the write to target, standing under c, NOT performed for every object?  A nil
+// guard is transparent when the tested expression lies on the access path of the target (the
+// target itself, a prefix of it, or something the variable it starts at was reached through: the
+// loop element, the slice or map ranged over, the receiver or argument of the call the walker
+// came through): where that is nil there is no object to reset.
+func (rw *resetWalker) conditional(c ctx, target ast.Expr, env map[types.Object]binding) (string, bool) {
+	if c.cond {
+		return "conditionally", true
+	}
+	if len(c.guards) == 0 {
+		return "", false
+	}
+	via := rw.viaOf(target, env)
+	for _, g := range c.guards {
+		if !via[g.key] {
+			return "only where " + g.text + " is not nil (tested at " + g.pos + "; the reset does not go through it)", true
+		}
+	}
+	return "", false
+}
+
+// ---------------------------------------------------------------------------------------------
+// the walk
+
+func (rw *resetWalker) walk(stmts []ast.Stmt, env map[types.Object]binding, c ctx) ctx {
+	for _, s := range stmts {
+		rw.stmt(s, env, c)
+		switch x := s.(type) {
+		case *ast.IfStmt:
+			if gs, ok := rw.w.skipGuards(x, c); ok {
+				c = c.with(gs)
+			} else if escapes(s) {
+				c.cond = true // what follows is not reached on every path
+			}
+		case *ast.SwitchStmt, *ast.TypeSwitchStmt, *ast.SelectStmt:
+			if escapes(s) {
+				c.cond = true
+			}
+		case *ast.BranchStmt, *ast.ReturnStmt:
+			c.cond = true
+		}
+	}
+	return c
+}
+
+func copyEnv(env map[types.Object]binding) map[types.Object]binding {
+	out := make(map[types.Object]binding, len(env)+2)
+	for k, v := range env {
+		out[k] = v
+	}
+	return out
+}
+
+func (rw *resetWalker) stmt(s ast.Stmt, env map[types.Object]binding, c ctx) {
 	w := rw.w
 	switch x := s.(type) {
 	case *ast.BlockStmt:
-		rw.walk(x.List, env, cond, depth)
+		rw.walk(x.List, env, c)
 	case *ast.ExprStmt:
-		if c, ok := x.X.(*ast.CallExpr); ok {
-			rw.call(c, env, cond, depth)
+		if call, ok := x.X.(*ast.CallExpr); ok {
+			rw.call(call, env, c)
 		}
 	case *ast.IncDecStmt:
 		if k, _, ok := w.lhsField(x.X); ok && x.Tok == token.INC {
 			f := rw.fact(k)
-			if cond {
-				f.partial = append(f.partial, "incremented conditionally at "+w.pos(x))
+			if why, is := rw.conditional(c, x.X, env); is {
+				f.partial = append(f.partial, "incremented "+why+" at "+w.pos(x))
 			} else {
 				f.bump = true
 				f.sites = append(f.sites, w.pos(x))
 			}
 		}
 	case *ast.AssignStmt:
+		// a local variable: `x := e` makes x stand for what e stands for; any later assignment to a
+		// variable ends what it stood for
+		for i, l := range x.Lhs {
+			id, ok := l.(*ast.Ident)
+			if !ok || id.Name == "_" {
+				continue
+			}
+			if o := w.info.Defs[id]; o != nil && x.Tok == token.DEFINE && len(x.Lhs) == len(x.Rhs) {
+				if b := rw.exprBinding(x.Rhs[i], env); b.kind != "" {
+					env[o] = b
+				}
+			} else if o := w.info.Uses[id]; o != nil {
+				delete(env, o)
+			}
+		}
 		if x.Tok != token.ASSIGN || len(x.Lhs) != len(x.Rhs) {
 			// a call on the right of a define / assignment may still be a reset helper: ignored
 			return
@@ -269,129 +598,292 @@ func (rw *resetWalker) stmt(s ast.Stmt, env map[types.Object]binding, cond bool,
 				continue
 			}
 			f := rw.fact(k)
-			switch {
-			case !freshValue(x.Rhs[i]):
+			if !freshValue(x.Rhs[i]) {
 				f.partial = append(f.partial, "assigned a value that is not fresh at "+w.pos(x))
-			case cond:
-				f.partial = append(f.partial, "reset conditionally at "+w.pos(x))
-			default:
-				b, bound := binding{}, false
-				if id := baseIdent(l); id != nil {
-					if o := w.info.Uses[id]; o != nil {
-						b, bound = env[o]
-					}
-				}
-				rooted := false
-				if id := baseIdent(l); id != nil && rw.recv != nil && w.info.Uses[id] == rw.recv {
-					rooted = true
-				}
-				switch {
-				case bound && (b.kind == "elem" || b.kind == "module"):
-					f.cover = coverOf(f.cover, b.cover)
-				case rooted:
-					f.full = true
-				default:
-					f.partial = append(f.partial, "reset through a variable that does not stand for every object at "+w.pos(x))
-					continue
-				}
-				f.sites = append(f.sites, w.pos(x))
+				continue
 			}
+			if why, is := rw.conditional(c, l, env); is {
+				f.partial = append(f.partial, "reset "+why+" at "+w.pos(x))
+				continue
+			}
+			b := binding{}
+			if id := baseIdent(l); id != nil {
+				if o := w.info.Uses[id]; o != nil {
+					b = env[o]
+				}
+			}
+			switch {
+			case (b.kind == "elem" || b.kind == "module") && w.pureFieldPath(l):
+				f.cover = coverOf(f.cover, b.cover)
+			case b.kind == "root" && w.pureFieldPath(l):
+				f.full = true
+			default:
+				f.partial = append(f.partial, "reset through a variable that does not stand for every object at "+w.pos(x))
+				continue
+			}
+			f.sites = append(f.sites, w.pos(x))
 		}
 	case *ast.RangeStmt:
-		env2 := map[types.Object]binding{}
-		for k, v := range env {
-			env2[k] = v
-		}
-		var val types.Object
+		env2 := copyEnv(env)
 		if id, ok := x.Value.(*ast.Ident); ok && id.Name != "_" {
-			val = w.info.Defs[id]
-		}
-		b, known := rw.rangeBinding(x.X, env)
-		if known && val != nil {
-			env2[val] = b
+			if val := w.info.Defs[id]; val != nil {
+				env2[val] = rw.rangeBinding(x.X, env)
+			}
 		}
 		// a loop over a field itself: every key is visited (for delete-all)
 		var over fieldKey
 		isOver := false
 		if k, ok := w.fieldOf(x.X); ok {
 			over, isOver = k, true
-			if !cond {
+			if !c.cond {
 				rw.ranging[over] = true
 			}
 		}
-		rw.walk(x.Body.List, env2, cond, depth)
+		c2 := c
+		c2.loops++
+		rw.walk(x.Body.List, env2, c2)
 		if isOver {
 			delete(rw.ranging, over)
 		}
 	case *ast.IfStmt:
-		rw.walk(x.Body.List, env, true, depth)
+		thenC, elseC := c, c
+		thenC.cond, elseC.cond = true, true
+		if x.Init == nil {
+			if gs, ok := w.holdGuards(x.Cond); ok {
+				thenC = c.with(gs)
+			}
+			if gs, ok := w.failGuards(x.Cond); ok {
+				elseC = c.with(gs)
+			}
+		}
+		rw.walk(x.Body.List, env, thenC)
 		if x.Else != nil {
-			rw.stmt(x.Else, env, true, depth)
+			rw.stmt(x.Else, env, elseC)
 		}
 	case *ast.SwitchStmt:
-		rw.walk(x.Body.List, env, true, depth)
+		c.cond = true
+		rw.walk(x.Body.List, env, c)
 	case *ast.CaseClause:
-		rw.walk(x.Body, env, true, depth)
+		c.cond = true
+		rw.walk(x.Body, env, c)
 	case *ast.ForStmt:
-		rw.walk(x.Body.List, env, true, depth)
+		c.cond = true
+		c.loops++
+		rw.walk(x.Body.List, env, c)
 	}
 }
 
-// rangeBinding: what the value variable of `range e` stands for.
-func (rw *resetWalker) rangeBinding(e ast.Expr, env map[types.Object]binding) (binding, bool) {
+// exprBinding: what the expression stands for (see binding), with the keys it was reached through.
+func (rw *resetWalker) exprBinding(e ast.Expr, env map[types.Object]binding) binding {
+	b := rw.exprKind(e, env, 0)
+	b.via = rw.viaOf(e, env)
+	return b
+}
+
+func (rw *resetWalker) exprKind(e ast.Expr, env map[types.Object]binding, depth int) binding {
 	w := rw.w
 	switch x := e.(type) {
+	case *ast.ParenExpr:
+		return rw.exprKind(x.X, env, depth)
+	case *ast.UnaryExpr:
+		if x.Op == token.AND {
+			return rw.exprKind(x.X, env, depth)
+		}
+	case *ast.FuncLit:
+		return binding{kind: "func", fn: &funcVal{lit: x, env: env}}
 	case *ast.CompositeLit:
 		// []map[string]*Module{ms.Modules, ms.SubModules}
-		b := binding{kind: "maps"}
+		b := binding{kind: "tables"}
 		for _, el := range x.Elts {
-			k, ok := w.fieldOf(el)
-			if !ok || k.Struct != w.cfg.Root || !moduleMaps[k.Field] {
-				return binding{}, false
+			eb := rw.exprKind(el, env, depth)
+			if eb.kind != "maps" {
+				return binding{}
 			}
-			b.cover = coverOf(b.cover, k.Field)
+			b.cover = coverOf(b.cover, eb.cover)
 		}
-		return b, b.cover != ""
+		if b.cover == "" {
+			return binding{}
+		}
+		return b
 	case *ast.Ident:
-		if o := w.info.Uses[x]; o != nil {
-			if b, ok := env[o]; ok && b.kind == "maps" {
-				return binding{kind: "module", cover: b.cover}, true
+		o := w.objOf(x)
+		if o == nil {
+			return binding{}
+		}
+		if b, ok := env[o]; ok {
+			return binding{kind: b.kind, cover: b.cover, fn: b.fn}
+		}
+		if lit := w.localFuncs()[o]; lit != nil {
+			return binding{kind: "func", fn: &funcVal{lit: lit, env: env}}
+		}
+		if fn, ok := o.(*types.Func); ok && fn.Pkg() == w.pkg.Types {
+			if fd := w.declOf(fn); fd != nil && fd.Recv == nil {
+				return binding{kind: "func", fn: &funcVal{decl: fd}}
 			}
 		}
 	case *ast.SelectorExpr:
-		if k, ok := w.fieldOf(x); ok {
-			if k.Struct == w.cfg.Root && moduleMaps[k.Field] {
-				return binding{kind: "module", cover: k.Field}, true
+		k, ok := w.fieldOf(x)
+		if !ok {
+			return binding{}
+		}
+		base := binding{}
+		if id := pathIdent(x); id != nil {
+			if o := w.objOf(id); o != nil {
+				base = env[o]
 			}
-			// a slice field of a loaded module
-			if id := baseIdent(x); id != nil {
-				if o := w.info.Uses[id]; o != nil {
-					if b, ok := env[o]; ok && b.kind == "module" {
-						if _, direct := x.X.(*ast.Ident); direct {
-							return binding{kind: "elem", cover: b.cover}, true
-						}
-					}
-				}
+		}
+		if k.Struct == w.cfg.Root && moduleMaps[k.Field] {
+			return binding{kind: "maps", cover: k.Field}
+		}
+		// a slice field of a loaded module
+		if _, direct := x.X.(*ast.Ident); direct && base.kind == "module" {
+			return binding{kind: "elems", cover: base.cover}
+		}
+		// an infrastructure object reached from the root by field selections
+		if base.kind == "root" && w.pureFieldPath(x) {
+			if s := w.namedStruct(w.info.TypeOf(x)); s != "" && !w.isNode(s) {
+				return binding{kind: "root"}
 			}
 		}
 	case *ast.CallExpr:
+		fd := w.callee(x)
+		if fd == nil || fd.Body == nil || depth > 2 {
+			return binding{}
+		}
+		sel, isMethod := x.Fun.(*ast.SelectorExpr)
 		// m.Identities(): an accessor of a slice field of a loaded module
-		if sel, ok := x.Fun.(*ast.SelectorExpr); ok && len(x.Args) == 0 {
-			if _, isField := w.accessorField(w.callee(x)); isField {
+		if isMethod && len(x.Args) == 0 {
+			if _, isField := w.accessorField(fd); isField {
 				if id, direct := sel.X.(*ast.Ident); direct {
-					if o := w.info.Uses[id]; o != nil {
-						if b, ok := env[o]; ok && b.kind == "module" {
-							return binding{kind: "elem", cover: b.cover}, true
-						}
+					if o := w.objOf(id); o != nil && env[o].kind == "module" {
+						return binding{kind: "elems", cover: env[o].cover}
 					}
 				}
 			}
 		}
+		// a function without parameters whose body is `return <expr>` stands for that expression
+		if len(x.Args) == 0 && len(fd.Body.List) == 1 {
+			if r, ok := fd.Body.List[0].(*ast.ReturnStmt); ok && len(r.Results) == 1 {
+				env2 := rw.frameEnv(fd, x, env)
+				return rw.exprKind(r.Results[0], env2, depth+1)
+			}
+		}
 	}
-	return binding{}, false
+	return binding{}
 }
 
-func (rw *resetWalker) call(c *ast.CallExpr, env map[types.Object]binding, cond bool, depth int) {
+// rangeBinding: what the value variable of `range e` stands for.
+func (rw *resetWalker) rangeBinding(e ast.Expr, env map[types.Object]binding) binding {
+	b := rw.exprBinding(e, env)
+	switch b.kind {
+	case "tables":
+		b.kind = "maps"
+	case "maps":
+		b.kind = "module"
+	case "elems":
+		b.kind = "elem"
+	default:
+		b.kind, b.cover = "", ""
+	}
+	b.fn = nil
+	return b
+}
+
+// frameEnv: the environment a function of the package starts in when it is entered through call
+// (nil: entered from outside): its receiver and its parameters stand for what the receiver
+// expression and the arguments stand for.  The receiver of a method of the root or of another
+// infrastructure struct stands for that one object also when the walker does not know the
+// expression it is called on.
+func (rw *resetWalker) frameEnv(fd *ast.FuncDecl, call *ast.CallExpr, env map[types.Object]binding) map[types.Object]binding {
+	w := rw.w
+	env2 := map[types.Object]binding{}
+	if fd.Recv != nil && len(fd.Recv.List) == 1 && len(fd.Recv.List[0].Names) == 1 {
+		if ro := w.info.Defs[fd.Recv.List[0].Names[0]]; ro != nil {
+			b := binding{}
+			if call != nil {
+				if sel, ok := call.Fun.(*ast.SelectorExpr); ok {
+					b = rw.exprBinding(sel.X, env)
+				}
+			}
+			if b.kind == "" && w.recvOf(fd) != nil {
+				b.kind = "root"
+			}
+			env2[ro] = b
+		}
+	}
+	if call != nil {
+		rw.bindParams(fd.Type, call.Args, env, env2)
+	}
+	return env2
+}
+
+func (rw *resetWalker) bindParams(ft *ast.FuncType, args []ast.Expr, env, env2 map[types.Object]binding) {
+	if ft.Params == nil {
+		return
+	}
+	var names []*ast.Ident
+	for _, p := range ft.Params.List {
+		if _, variadic := p.Type.(*ast.Ellipsis); variadic {
+			return
+		}
+		if len(p.Names) == 0 {
+			return
+		}
+		names = append(names, p.Names...)
+	}
+	if len(names) != len(args) {
+		return
+	}
+	for i, id := range names {
+		if o := rw.w.info.Defs[id]; o != nil && id.Name != "_" {
+			env2[o] = rw.exprBinding(args[i], env)
+		}
+	}
+}
+
+// enter walks the body of a function value with its parameters bound to the arguments of call.
+func (rw *resetWalker) enter(fv *funcVal, call *ast.CallExpr, env map[types.Object]binding, c ctx) {
+	w := rw.w
+	if c.depth > 6 {
+		return
+	}
+	var name string
+	var body *ast.BlockStmt
+	var env2 map[types.Object]binding
+	switch {
+	case fv.decl != nil:
+		if fv.decl.Body == nil {
+			return
+		}
+		name, body = funcName(fv.decl), fv.decl.Body
+		env2 = rw.frameEnv(fv.decl, call, env)
+	case fv.lit != nil:
+		name, body = "literal at "+w.pos(fv.lit), fv.lit.Body
+		env2 = copyEnv(fv.env)
+		rw.bindParams(fv.lit.Type, call.Args, env, env2)
+	default:
+		return
+	}
+	if rw.stack[name] {
+		return
+	}
+	rw.stack[name] = true
+	c.loops = 0
+	c.depth++
+	rw.walk(body.List, env2, c)
+	delete(rw.stack, name)
+}
+
+func (rw *resetWalker) rooted(e ast.Expr, env map[types.Object]binding) bool {
+	id := baseIdent(e)
+	if id == nil {
+		return false
+	}
+	o := rw.w.info.Uses[id]
+	return o != nil && env[o].kind == "root" && rw.w.pureFieldPath(e)
+}
+
+func (rw *resetWalker) call(c *ast.CallExpr, env map[types.Object]binding, cx ctx) {
 	w := rw.w
 	if id, ok := c.Fun.(*ast.Ident); ok && len(c.Args) > 0 {
 		if _, isBuiltin := w.info.Uses[id].(*types.Builtin); isBuiltin {
@@ -399,10 +891,10 @@ func (rw *resetWalker) call(c *ast.CallExpr, env map[types.Object]binding, cond 
 			case "clear":
 				if k, ok := w.fieldOf(c.Args[0]); ok {
 					f := rw.fact(k)
-					if id := baseIdent(c.Args[0]); id == nil || rw.recv == nil || w.info.Uses[id] != rw.recv {
+					if !rw.rooted(c.Args[0], env) {
 						f.partial = append(f.partial, "cleared through a variable that does not stand for every object at "+w.pos(c))
-					} else if cond {
-						f.partial = append(f.partial, "cleared conditionally at "+w.pos(c))
+					} else if why, is := rw.conditional(cx, c.Args[0], env); is {
+						f.partial = append(f.partial, "cleared "+why+" at "+w.pos(c))
 					} else {
 						f.full = true
 						f.sites = append(f.sites, w.pos(c))
@@ -411,7 +903,7 @@ func (rw *resetWalker) call(c *ast.CallExpr, env map[types.Object]binding, cond 
 			case "delete":
 				if k, ok := w.fieldOf(c.Args[0]); ok {
 					f := rw.fact(k)
-					if !cond && rw.ranging[k] {
+					if _, is := rw.conditional(cx, c.Args[0], env); !is && rw.ranging[k] {
 						f.full = true
 						f.sites = append(f.sites, w.pos(c))
 					} else {
@@ -425,36 +917,182 @@ func (rw *resetWalker) call(c *ast.CallExpr, env map[types.Object]binding, cond 
 	if w.isMutexCall(c) {
 		return
 	}
-	fd := w.callee(c)
-	if fd == nil || fd.Body == nil || depth > 6 {
+	// a function literal called on the spot, a local closure, a function-valued parameter
+	switch f := c.Fun.(type) {
+	case *ast.FuncLit:
+		rw.enter(&funcVal{lit: f, env: env}, c, env, cx)
 		return
+	case *ast.Ident:
+		if _, isVar := w.objOf(f).(*types.Var); isVar {
+			if b := rw.exprKind(f, env, 0); b.kind == "func" {
+				rw.enter(b.fn, c, env, cx)
+			}
+			return
+		}
 	}
-	name := funcName(fd)
-	if rw.stack[name] {
+	fd := w.callee(c)
+	if fd == nil || fd.Body == nil {
 		return
 	}
 	// an all-modules iterator with a function literal
-	if len(c.Args) == 1 {
+	if len(c.Args) == 1 && !rw.stack[funcName(fd)] && cx.depth <= 6 {
 		if lit, ok := c.Args[0].(*ast.FuncLit); ok {
 			if cover, isIter := w.iteratorCoverage(fd); isIter && len(lit.Type.Params.List) == 1 && len(lit.Type.Params.List[0].Names) == 1 {
-				env2 := map[types.Object]binding{}
-				for k, v := range env {
-					env2[k] = v
-				}
+				env2 := copyEnv(env)
 				if o := w.info.Defs[lit.Type.Params.List[0].Names[0]]; o != nil {
 					env2[o] = binding{kind: "module", cover: cover}
 				}
-				rw.walk(lit.Body.List, env2, cond, depth+1)
+				cx.loops = 0
+				cx.depth++
+				rw.walk(lit.Body.List, env2, cx)
 				return
 			}
 		}
 	}
-	rw.stack[name] = true
-	saved := rw.recv
-	rw.recv = w.recvOf(fd)
-	rw.walk(fd.Body.List, map[types.Object]binding{}, cond, depth+1)
-	rw.recv = saved
-	delete(rw.stack, name)
+	rw.enter(&funcVal{decl: fd}, c, env, cx)
+}
+
+// localFuncs: local variables that are defined with a function literal and never assigned again
+// (nor have their address taken): a call of such a variable runs that literal.
+func (w *world) localFuncs() map[types.Object]*ast.FuncLit {
+	if w.localFn != nil {
+		return w.localFn
+	}
+	out := map[types.Object]*ast.FuncLit{}
+	spoiled := map[types.Object]bool{}
+	for _, f := range w.pkg.Syntax {
+		ast.Inspect(f, func(n ast.Node) bool {
+			switch x := n.(type) {
+			case *ast.AssignStmt:
+				for i, l := range x.Lhs {
+					id, ok := l.(*ast.Ident)
+					if !ok {
+						continue
+					}
+					if x.Tok == token.DEFINE {
+						if o := w.info.Defs[id]; o != nil {
+							if lit, isLit := rhsAt(x, i).(*ast.FuncLit); isLit && o.Parent() != w.pkg.Types.Scope() {
+								out[o] = lit
+							}
+							continue
+						}
+					}
+					if o := w.info.Uses[id]; o != nil {
+						spoiled[o] = true
+					}
+				}
+			case *ast.ValueSpec:
+				for i, id := range x.Names {
+					if o := w.info.Defs[id]; o != nil && i < len(x.Values) && o.Parent() != w.pkg.Types.Scope() {
+						if lit, isLit := x.Values[i].(*ast.FuncLit); isLit {
+							out[o] = lit
+						}
+					}
+				}
+			case *ast.UnaryExpr:
+				if id, ok := unparen(x.X).(*ast.Ident); ok && x.Op == token.AND {
+					if o := w.info.Uses[id]; o != nil {
+						spoiled[o] = true
+					}
+				}
+			}
+			return true
+		})
+	}
+	for o := range spoiled {
+		delete(out, o)
+	}
+	w.localFn = out
+	return out
+}
+
+func rhsAt(x *ast.AssignStmt, i int) ast.Expr {
+	if len(x.Lhs) == len(x.Rhs) {
+		return x.Rhs[i]
+	}
+	return nil
+}
+
+// ---------------------------------------------------------------------------------------------
+// the prologue
+
+// reachesCall: does fd (transitively, anywhere in its body, function literals included) call the named function?
+func (w *world) reachesCall(fd *ast.FuncDecl, name string, seen map[string]bool) bool {
+	if fd == nil || fd.Body == nil || seen[funcName(fd)] {
+		return false
+	}
+	seen[funcName(fd)] = true
+	found := false
+	ast.Inspect(fd.Body, func(n ast.Node) bool {
+		if c, ok := n.(*ast.CallExpr); ok {
+			if cd := w.callee(c); cd != nil && (funcName(cd) == name || w.reachesCall(cd, name, seen)) {
+				found = true
+			}
+		}
+		return !found
+	})
+	return found
+}
+
+// soleCall: the call a statement consists of: `f(...)`, `x := f(...)`, `x = f(...)`, `return f(...)`.
+func soleCall(s ast.Stmt) *ast.CallExpr {
+	var e ast.Expr
+	switch x := s.(type) {
+	case *ast.ExprStmt:
+		e = x.X
+	case *ast.AssignStmt:
+		if len(x.Rhs) == 1 {
+			e = x.Rhs[0]
+		}
+	case *ast.ReturnStmt:
+		if len(x.Results) == 1 {
+			e = x.Results[0]
+		}
+	}
+	if e == nil {
+		return nil
+	}
+	c, _ := unparen(e).(*ast.CallExpr)
+	return c
+}
+
+// prologue walks what fd runs before the linking pass starts: its top-level statements before the
+// first one that contains a call of the linking pass; when the first statement that can reach the
+// linking pass is a plain call of a function of the package (`return ms.run()`), the statements
+// before it and then the prologue of that function.  It reports whether the linking pass was found.
+func (rw *resetWalker) prologue(fd *ast.FuncDecl, env map[types.Object]binding, c ctx) bool {
+	w := rw.w
+	for i, s := range fd.Body.List {
+		if w.containsCallTo(s, w.cfg.LinkingPass) {
+			rw.walk(fd.Body.List[:i], env, c)
+			return true
+		}
+		reaches := false
+		ast.Inspect(s, func(n ast.Node) bool {
+			if call, ok := n.(*ast.CallExpr); ok {
+				if cd := w.callee(call); cd != nil && w.reachesCall(cd, w.cfg.LinkingPass, map[string]bool{w.cfg.Process: true}) {
+					reaches = true
+				}
+			}
+			return !reaches
+		})
+		if !reaches {
+			continue
+		}
+		c2 := rw.walk(fd.Body.List[:i], env, c)
+		if call := soleCall(s); call != nil && c2.depth < 4 {
+			if cd := w.callee(call); cd != nil && cd.Body != nil && !rw.stack[funcName(cd)] &&
+				w.reachesCall(cd, w.cfg.LinkingPass, map[string]bool{w.cfg.Process: true}) {
+				w.note("the prologue of %s continues in %s (called at %s)", funcName(fd), funcName(cd), w.pos(call))
+				rw.stack[funcName(cd)] = true
+				c2.loops = 0
+				c2.depth++
+				return rw.prologue(cd, rw.frameEnv(cd, call, env), c2)
+			}
+		}
+		return true // the linking pass starts somewhere inside s: the prologue ends before s
+	}
+	return false
 }
 
 // containsCallTo: does the statement (outside function literals) call the named function?
@@ -551,12 +1189,10 @@ func (w *world) calledUnconditionally(f, g string, depth int) bool {
 	}
 	for _, s := range fd.Body.List {
 		switch s.(type) {
-		case *ast.IfStmt, *ast.ForStmt, *ast.RangeStmt, *ast.SwitchStmt, *ast.ReturnStmt:
-			if _, isRet := s.(*ast.ReturnStmt); isRet {
-				return false
-			}
+		case *ast.IfStmt, *ast.ForStmt, *ast.RangeStmt, *ast.SwitchStmt:
 			continue
 		}
+		_, isRet := s.(*ast.ReturnStmt)
 		if w.containsCallTo(s, g) {
 			return true
 		}
@@ -575,6 +1211,9 @@ func (w *world) calledUnconditionally(f, g string, depth int) bool {
 		})
 		if via {
 			return true
+		}
+		if isRet {
+			return false // `return f(...)`: what f calls is still reached, what follows is not
 		}
 	}
 	return false
@@ -602,22 +1241,11 @@ func (w *world) classifyResets(listed []*fieldFact) {
 		w.note("function %s not found: no field is reset", w.cfg.Process)
 		return
 	}
-	var prologue []ast.Stmt
-	sentinel := false
-	for _, s := range proc.Body.List {
-		if w.containsCallTo(s, w.cfg.LinkingPass) {
-			sentinel = true
-			break
-		}
-		prologue = append(prologue, s)
-	}
-	if !sentinel {
+	rw := &resetWalker{w: w, facts: map[fieldKey]*resetFact{}, stack: map[string]bool{w.cfg.Process: true}, ranging: map[fieldKey]bool{}}
+	if !rw.prologue(proc, rw.frameEnv(proc, nil, nil), ctx{}) {
 		w.note("%s does not call the linking pass %s: its prologue is empty", w.cfg.Process, w.cfg.LinkingPass)
-		prologue = nil
+		rw.facts = map[fieldKey]*resetFact{}
 	}
-	rw := &resetWalker{w: w, facts: map[fieldKey]*resetFact{}, stack: map[string]bool{w.cfg.Process: true}, ranging: map[fieldKey]bool{},
-		recv: w.recvOf(proc)}
-	rw.walk(prologue, map[types.Object]binding{}, false, 0)
 
 	for _, f := range listed {
 		a, inAllow := allow[f.Key.String()]
@@ -670,8 +1298,8 @@ func (w *world) resetElsewhere(f *fieldFact, g string, a AllowField) (string, st
 		if !w.mentionsField(s, f.Key) {
 			continue
 		}
-		rw := &resetWalker{w: w, facts: map[fieldKey]*resetFact{}, stack: map[string]bool{g: true}, ranging: map[fieldKey]bool{}, recv: w.recvOf(gd)}
-		rw.stmt(s, map[types.Object]binding{}, false, 0)
+		rw := &resetWalker{w: w, facts: map[fieldKey]*resetFact{}, stack: map[string]bool{g: true}, ranging: map[fieldKey]bool{}}
+		rw.stmt(s, rw.frameEnv(gd, nil, nil), ctx{})
 		rf := rw.facts[f.Key]
 		switch {
 		case rf != nil && (rf.full || (rf.cover != "" && covers(rf.cover, w.required(a)))) && len(rf.partial) == 0:
